@@ -492,11 +492,16 @@ fn check_cmplx(a: &Vec<Vec<Cmplx>>, b: &[Cmplx], acc: &mut Acc) -> Result<(), St
     Ok(())
 }
 fn complex_space(ctx: &Ctx, n: usize, full: bool) {
+    complex_space_at(ctx, n, full, 1.0);
+}
+/// the Complex<f64> lattice (tiny letter included) multiplied by a power of two: the pivot search compares moduli beyond the
+/// range where re^2 + im^2 is representable, and the backward error is scale invariant
+fn complex_space_at(ctx: &Ctx, n: usize, full: bool, scale: f64) {
     let letters = cletters(full);
     let l = letters.len() as u64;
     let len = pow(l, (n * n) as u32);
     ctx.lattice(
-        &format!("Complex<f64> n={} over {} letters", n, l),
+        &if scale == 1.0 { format!("Complex<f64> n={} over {} letters", n, l) } else { format!("Complex<f64> n={} over {} letters, every entry times 2^{}", n, l, scale.log2()) },
         len,
         |idx| {
             let mut d = vec![0usize; n * n];
@@ -511,8 +516,8 @@ fn complex_space(ctx: &Ctx, n: usize, full: bool) {
                 acc.hit("singular / numerically singular (skipped)");
                 return;
             }
-            let a: Vec<Vec<Cmplx>> = (0..n).map(|i| (0..n).map(|j| letters[d[i * n + j]].0).collect()).collect();
-            if cabs(a[0][0]) < 1e-10 {
+            let a: Vec<Vec<Cmplx>> = (0..n).map(|i| (0..n).map(|j| Cmplx::new(letters[d[i * n + j]].0.real * scale, letters[d[i * n + j]].0.imag * scale)).collect()).collect();
+            if cabs(a[0][0]) < 1e-10 * scale {
                 acc.nontriv("zero or tiny leading pivot");
             }
             if a.iter().flatten().any(|z| z.imag != 0.0) {
@@ -777,6 +782,12 @@ fn main() {
     complex_space(&ctx, 1, true);
     complex_space(&ctx, 2, true);
     complex_space(&ctx, 3, false);
+    for e in [-600, -450, 450, 600] {
+        complex_space_at(&ctx, 2, true, 2f64.powi(e));
+        if ctx.thorough() {
+            complex_space_at(&ctx, 3, false, 2f64.powi(e));
+        }
+    }
     complex_scaled_space(&ctx, 2, 6);
     if ctx.thorough() {
         complex_scaled_space(&ctx, 3, 3);
